@@ -399,14 +399,18 @@ def check_group(out, ops, meta, io, mo):
 
 
 def run_groups(ctx, out, groups, tag, exhaustive_perms=True):
-    built = [evaluate_group(ctx, out, g, tag, exhaustive_perms) for g in groups]
-    ops_list = [b[0] for b in built]
-    impl = sessions.run_impl_sessions(ops_list)
-    model = sessions.run_model_sessions(ctx.driver, ops_list)
-    for k, (ops, meta) in enumerate(built):
-        check_group(out, ops, meta, impl[k], model[k] if model is not None else None)
-        if k % 500 == 0:
-            out.sample({"type_systems": meta["tsds"], "merge_outcomes": [("ok" if "ok" in impl[k][r] else impl[k][r].get("err")) for r in meta["results"]]})
+    # in chunks: every session carries a dozen complete type-system dumps on both sides (the whole battery at once needed > 20 GB)
+    CH = 1500
+    for c0 in range(0, len(groups), CH):
+        built = [evaluate_group(ctx, out, g, tag, exhaustive_perms) for g in groups[c0:c0 + CH]]
+        ops_list = [b[0] for b in built]
+        impl = sessions.run_impl_sessions(ops_list)
+        model = sessions.run_model_sessions(ctx.driver, ops_list)
+        for k, (ops, meta) in enumerate(built):
+            check_group(out, ops, meta, impl[k], model[k] if model is not None else None)
+            if (c0 + k) % 500 == 0:
+                out.sample({"type_systems": meta["tsds"], "merge_outcomes": [("ok" if "ok" in impl[k][r] else impl[k][r].get("err")) for r in meta["results"]]})
+        del built, ops_list, impl, model
 
 
 def random_tsd(rng, pool, nfeat):
